@@ -6,6 +6,7 @@ import (
 	"sync"
 
 	"github.com/mdzio/go-mqtt/message"
+	"github.com/mdzio/go-mqtt/sessions"
 )
 
 // C17: outgoing streams are whole packets; each publisher's messages stay in order.
@@ -294,4 +295,65 @@ func H17_wrap_sequence() {
 		vrtAssert("C17.wrapped_packet_on_the_wire", vrtBytesEq(wire, want))
 	}
 	vrtReach("C17.wrap_sequence")
+}
+
+// H17b_two_publishers: two goroutines deliver a QoS 1 message each to the same
+// connection through the full sending path (publish: registration for the
+// acknowledgement, then the write) while its outgoing ring is about to wrap;
+// every interleaving within the preemption bound; the ring holds the two
+// packets, whole, in either order.
+func H17b_two_publishers() {
+	bf, err := newBuffer(1)
+	if err != nil {
+		panic(err)
+	}
+	k := int64(1 + vrtChoice("before_wrap", 6))
+	c := 2*bf.size - k
+	bf.cseq.set(c)
+	bf.pseq.set(c)
+	bf.pseq.gate = c
+	svc := &service{out: bf}
+	cm := message.NewConnectMessage()
+	cm.SetVersion(4)
+	cm.SetClientID([]byte("x"))
+	cm.SetCleanSession(true)
+	svc.sess = &sessions.Session{}
+	if err := svc.sess.Init(cm); err != nil {
+		panic(err)
+	}
+	mk := func(topic byte, id uint16, name string) (*message.PublishMessage, []byte) {
+		m := message.NewPublishMessage()
+		payload := []byte{vrtByte(name + ".p0"), vrtByte(name + ".p1"), vrtByte(name + ".p2"), 4, 5, 6, 7}
+		m.SetTopic([]byte{topic})
+		m.SetPayload(payload)
+		m.SetQoS(1)
+		m.SetPacketID(id)
+		return m, specEncode(&specPkt{Typ: specPUBLISH, Flags: 2, ID: id, Topic: []byte{topic}, Payload: payload})
+	}
+	m1, w1 := mk('a', 11, "m1")
+	m2, w2 := mk('b', 12, "m2")
+	var e1, e2 error
+	vrtGo(func() { e1 = svc.publish(m1, nil) })
+	vrtGo(func() { e2 = svc.publish(m2, nil) })
+	vrtJoin()
+	vrtAssert("C17.writes_ok", vrtAnd(e1 == nil, e2 == nil))
+	total := len(w1) + len(w2)
+	vrtAssert("C17.ring_holds_both", bf.Len() == total)
+	if bf.Len() != total {
+		return
+	}
+	var wire []byte
+	for len(wire) < total {
+		p, perr := bf.ReadPeek(total - len(wire))
+		if perr != nil && perr != ErrBufferInsufficientData {
+			vrtAssert("C17.drain_ok", false)
+			return
+		}
+		wire = append(wire, p...)
+		bf.ReadCommit(len(p))
+	}
+	ab := append(append([]byte(nil), w1...), w2...)
+	ba := append(append([]byte(nil), w2...), w1...)
+	vrtAssert("C17.whole_packets_in_some_order", vrtOr(vrtBytesEq(wire, ab), vrtBytesEq(wire, ba)))
+	vrtReach("C17.two_publishers")
 }
